@@ -151,15 +151,13 @@ class ProtoExporter:
 
         # Attribute names are unique by construction. The exported names however are those of the attributes themselves,
         # which differ when one object is held under two names, or was renamed after it was added.
-        for kind, names in (
-            ("Signal", [s.name for s in pmod.signals]),
-            ("Instance", [i.name for i in pmod.instances]),
-        ):
-            repeated = sorted({n for n in names if names.count(n) > 1})
-            if repeated:
-                msg = f"Cannot export Module {module.name}: {kind} name(s) {repeated} would be declared more than once. "
-                msg += "(Is one object stored under two names, or was it renamed after being added?)"
-                raise RuntimeError(msg)
+        # Signals and Instances share one namespace, here and in any Module the package is imported into.
+        names = [s.name for s in pmod.signals] + [i.name for i in pmod.instances]
+        repeated = sorted({n for n in names if names.count(n) > 1})
+        if repeated:
+            msg = f"Cannot export Module {module.name}: name(s) {repeated} would be declared more than once. "
+            msg += "(Is one object stored under two names, or was it renamed after being added?)"
+            raise RuntimeError(msg)
 
         # Check the name again: an instantiated (transitive) child module may have taken it since,
         # when `module` has a same-named Module among its own dependencies.
